@@ -111,6 +111,8 @@ struct Ctx {
     cfg: CfgEnv,
     macros: HashMap<String, mrules::MacroDef>,
     path_rw: Vec<(Vec<String>, Vec<String>)>, // prefix rewrite on paths
+    unwrap_types: Vec<String>,                // `W<T, ..>` => `T`  (R6 identification of forwarding wrappers)
+    type_rw: Vec<(String, String)>,           // whole-type rewrite, matched on the squashed token text
     method_rw: Vec<(String, String)>,         // method-name rewrite  .from(  => .vx_from(
     files: HashMap<String, syn::File>,
     file_text: HashMap<String, String>,
@@ -523,6 +525,9 @@ impl<'a> VisitMut for Rw<'a> {
                 Stmt::Expr(e, _) if is_loop_expr(e) => Some(self.loops),
                 _ => None,
             };
+            if let Some(k) = loop_id {
+                out.push(marker("__vx_loop_before", Some(k)));
+            }
             self.visit_stmt_mut(&mut s);
             out.push(s);
             if let Some(k) = loop_id {
@@ -628,6 +633,35 @@ impl<'a> VisitMut for Rw<'a> {
         visit_mut::visit_expr_mut(self, e);
     }
 
+    fn visit_type_mut(&mut self, t: &mut syn::Type) {
+        let txt = squash(&t.to_token_stream().to_string());
+        for (from, to) in &self.ctx.type_rw {
+            if *from == txt {
+                self.log.add("R6", "type", format!("{txt} => {to}"));
+                *t = syn::parse_str(to).unwrap_or_else(|e| die(&format!("type rewrite target `{to}`: {e}")));
+                return;
+            }
+        }
+        if let syn::Type::Path(tp) = t {
+            if tp.qself.is_none() {
+                if let Some(last) = tp.path.segments.last() {
+                    if self.ctx.unwrap_types.contains(&last.ident.to_string()) {
+                        if let syn::PathArguments::AngleBracketed(ab) = &last.arguments {
+                            if let Some(syn::GenericArgument::Type(inner)) = ab.args.first() {
+                                let inner = inner.clone();
+                                self.log.add("R6", "unwrap-type", format!("{} => {}", squash(&tp.to_token_stream().to_string()), squash(&inner.to_token_stream().to_string())));
+                                *t = inner;
+                                self.visit_type_mut(t);
+                                return;
+                            }
+                        }
+                    }
+                }
+            }
+        }
+        visit_mut::visit_type_mut(self, t);
+    }
+
     fn visit_path_mut(&mut self, p: &mut syn::Path) {
         let segs: Vec<String> = p.segments.iter().map(|s| s.ident.to_string()).collect();
         for (from, to) in &self.ctx.path_rw {
@@ -637,6 +671,10 @@ impl<'a> VisitMut for Rw<'a> {
                 let mut ns: syn::punctuated::Punctuated<syn::PathSegment, syn::Token![::]> = Default::default();
                 for t in to {
                     ns.push(syn::PathSegment::from(syn::Ident::new(t, Span::call_site())));
+                }
+                // generic arguments of the last rewritten segment move to the last target segment
+                if let (Some(last_from), Some(last_to)) = (p.segments.iter().nth(from.len() - 1), ns.last_mut()) {
+                    last_to.arguments = last_from.arguments.clone();
                 }
                 for t in tail {
                     ns.push(t);
@@ -682,6 +720,8 @@ struct UnitSpec {
     spec: String,
     anchors: BTreeMap<String, String>,
     open_attrs: String, // extra attributes to print before the fn
+    self_ty: Option<String>,  // R12: `Self` => this type parameter (trait default method verified as generic free fn)
+    generics: Option<String>, // generic parameters to prepend
 }
 
 fn rustfmt(src: &str) -> String {
@@ -763,6 +803,33 @@ fn gen_unit(ctx: &mut Ctx, u: &UnitSpec, report: &mut Vec<serde_json::Value>) ->
         die(&format!("unsupported-construct in {}: {e}", u.name));
     }
 
+    // R12: trait default method as a generic free function over an arbitrary implementor
+    if let Some(t) = &u.self_ty {
+        struct SelfTy(String);
+        impl VisitMut for SelfTy {
+            fn visit_ident_mut(&mut self, i: &mut syn::Ident) {
+                if i == "Self" {
+                    *i = syn::Ident::new(&self.0, i.span());
+                }
+            }
+        }
+        let mut v = SelfTy(t.clone());
+        v.visit_signature_mut(&mut fp.sig);
+        v.visit_block_mut(&mut fp.block);
+        log.add("R12", "self-type", format!("`Self` => `{t}` (default method verified for an arbitrary implementor)"));
+    }
+    if let Some(g) = &u.generics {
+        let gen: syn::Generics = syn::parse_str(g).unwrap_or_else(|e| die(&format!("generics option `{g}`: {e}")));
+        let mut params = gen.params.clone();
+        for p in fp.sig.generics.params.iter() {
+            params.push(p.clone());
+        }
+        fp.sig.generics.params = params;
+        if fp.sig.generics.lt_token.is_none() {
+            fp.sig.generics.lt_token = Some(Default::default());
+            fp.sig.generics.gt_token = Some(Default::default());
+        }
+    }
     // R2b: a bare block that is the tail of the function body (what remains of a
     // `#[cfg(..)] { .. }` pair) is inlined; scoping is unchanged because nothing follows it.
     loop {
@@ -861,12 +928,14 @@ fn gen_unit(ctx: &mut Ctx, u: &UnitSpec, report: &mut Vec<serde_json::Value>) ->
         text = re.replace(&text, regex::NoExpand(&rep)).to_string();
         text = text.replace(&format!("__vx_loop_end!({k});"), e.trim_end());
         text = text.replace(&format!("__vx_loop_after!({k});"), a.trim_end());
+        let bf = u.anchors.get(&format!("loop[{k}].before")).cloned().unwrap_or_default();
+        text = text.replace(&format!("__vx_loop_before!({k});"), bf.trim_end());
     }
     for key in u.anchors.keys() {
         let ok = key == "fn.begin"
             || key == "fn.end"
             || (0..nloops).any(|k| {
-                [format!("loop[{k}].inv"), format!("loop[{k}].begin"), format!("loop[{k}].end"), format!("loop[{k}].after")].contains(key)
+                [format!("loop[{k}].inv"), format!("loop[{k}].begin"), format!("loop[{k}].end"), format!("loop[{k}].after"), format!("loop[{k}].before")].contains(key)
             });
         if !ok {
             die(&format!("anchor-lost: unit {} has contract text for `{}` but the function has {} loops", u.name, key, nloops));
@@ -1010,6 +1079,8 @@ fn main() {
         cfg: CfgEnv::default_env(),
         macros: HashMap::new(),
         path_rw: vec![],
+        unwrap_types: vec![],
+        type_rw: vec![],
         method_rw: vec![],
         files: HashMap::new(),
         file_text: HashMap::new(),
@@ -1040,7 +1111,26 @@ fn main() {
         }
         out
     }
-    let owned_lines = splice(&text, &verif_dir, &mut includes, 0);
+    let spliced = splice(&text, &verif_dir, &mut includes, 0);
+    // //@define <regex> => <replacement>  : textual abbreviations for contract text (never applied to extracted code)
+    let mut defines: Vec<(Regex, String)> = vec![];
+    let mut owned_lines: Vec<String> = vec![];
+    for l in spliced {
+        if let Some(rest) = l.trim_start().strip_prefix("//@define ") {
+            let (a, b) = rest.split_once("=>").unwrap_or_else(|| die("define: need =>"));
+            defines.push((Regex::new(a.trim()).unwrap_or_else(|e| die(&format!("define regex: {e}"))), b.trim().to_string()));
+            continue;
+        }
+        if l.trim_start().starts_with("//@") {
+            owned_lines.push(l);
+            continue;
+        }
+        let mut cur = l;
+        for (re, rep) in &defines {
+            cur = re.replace_all(&cur, rep.as_str()).to_string();
+        }
+        owned_lines.push(cur);
+    }
     let lines: Vec<&str> = owned_lines.iter().map(|s| s.as_str()).collect();
     let mut li = 0;
     let mut cur: Option<UnitSpec> = None;
@@ -1109,6 +1199,14 @@ fn main() {
                 "clearpaths" => {
                     ctx.path_rw.clear();
                     ctx.method_rw.clear();
+                    ctx.type_rw.clear();
+                },
+                "unwrap_type" => {
+                    ctx.unwrap_types.push(rest.trim().to_string());
+                },
+                "type" => {
+                    let (l, r) = rest.split_once("=>").unwrap_or_else(|| die("type: need =>"));
+                    ctx.type_rw.push((squash(l), r.trim().to_string()));
                 },
                 "cfg" => {
                     let kv = parse_kv(rest);
@@ -1127,6 +1225,10 @@ fn main() {
                     let kv = parse_kv(rest);
                     let file = kv.get("file").unwrap_or_else(|| die("item: file=")).clone();
                     let sel = kv.get("sel").unwrap_or_else(|| die("item: sel=")).clone();
+                    if let Some(a) = kv.get("attrs") {
+                        out.push_str(a);
+                        out.push('\n');
+                    }
                     out.push_str(&gen_item(&mut ctx, &file, &sel, &mut report));
                 },
                 "unit" => {
@@ -1141,6 +1243,8 @@ fn main() {
                     u.keep_pub = kv.get("vis").map(|m| m == "pub").unwrap_or(false);
                     u.no_ufcs = kv.get("ufcs").map(|m| m == "off").unwrap_or(false);
                     u.open_attrs = kv.get("attrs").cloned().unwrap_or_default();
+                    u.self_ty = kv.get("self_ty").cloned();
+                    u.generics = kv.get("generics").cloned();
                     cur = Some(u);
                     cur_anchor = None;
                 },
